@@ -150,3 +150,40 @@ package common
 //@   ensures qr: result != nil && fresh(result) && isqr(val(result), val(n)) && 0 <= val(result) && val(result) < val(n)
 //@   modifies nothing
 //@   loop 0 modifies onlyfresh("BV")
+
+//@ # ---- reduction modulo p = 2^b - c (C19) ----
+//@ pred fmok(m) := m.enabled ==> val(m.p) > 0 && val(m.c) > 0 && val(m.c) <= val(m.p) && val(m.p) + val(m.c) == pow2(m.b) && val(m.mask) == pow2(m.b) - 1
+//@ func (*FastMod).Set
+//@   property C19
+//@   safety
+//@   requires m != nil && p != nil && val(p) > 0
+//@   ensures modulus: val(m.p) == old(val(p))
+//@   ensures wellformed: fmok(m)
+//@   modifies m.enabled, m.b, m.p, m.c, m.mask
+
+//@ # adding a multiple of p to a multiple of p gives a multiple of p
+//@ lemma modstep(d, k, p): p > 0 && d % p == 0 ==> (d + k * p) % p == 0
+//@ # a residue in [0, p) congruent to x is x mod p
+//@ lemma modunique(x, r, p): p > 0 && 0 <= r && r < p && (x - r) % p == 0 ==> x % p == r
+//@ func (*FastMod).Mod
+//@   property C19
+//@   nonlinear
+//@   safety
+//@   requires m != nil && ret != nil && x != nil && val(m.p) > 0 && fmok(m)
+//@   requires ret != ref(m.p) && ret != ref(m.c) && ret != ref(m.mask)
+//@   ensures same: result == ret
+//@   ensures value: val(result) == old(val(x)) % old(val(m.p))
+//@   modifies val(ret)
+//@   loop 0 invariant (cur == x || cur == ret) && (retSet ==> cur == ret) && (!retSet ==> cur == x && val(x) == old(val(x)))
+//@   loop 0 invariant val(cur) >= 0 && (old(val(x)) - val(cur)) % val(m.p) == 0
+//@   loop 0 modifies val(ret), onlyfresh("BV")
+//@   ghost at Int).Rsh c0: val($1)
+//@   assert at Int).And mask: val($2) + 1 == pow2(m.b) && val($1) == ghost(c0)
+//@   assert at Int).Mul low: val(ret) == ghost(c0) % pow2(m.b) && val(carry) == ghost(c0) / pow2(m.b)
+//@   assert at Int).Add split: ghost(c0) == val(carry) * pow2(m.b) + val(ret) && val(tmp) == val(carry) * val(m.c)
+//@   assert at Int).Add step: ghost(c0) - (val(ret) + val(tmp)) == val(carry) * val(m.p)
+//@   apply at Int).Cmp modunique(old(val(x)), val($0), val(m.p))
+//@   apply at Int).Sub modstep(old(val(x)) - val($1), 1, val(m.p))
+//@   apply at Int).Sub modunique(old(val(x)), val($1) - val($2), val(m.p))
+//@   dead return 4
+//@   apply at Int).Add modstep(old(val(x)) - ghost(c0), val(carry), val(m.p))
